@@ -383,8 +383,8 @@ RULES.append(("C14.j", "must-pass-through: no path around the effects this prope
 
 def rule_commit(ctx):
     from . import mustpass
-    for g, floor in [('ports', 80), ('lockfree', 25)]:
-        mustpass.commit_group(ctx, g, floor)
+    for spec in [('ports', 80), ('lockfree', 13, r'^channel::queue::|^util::(slot|task_set|cached_rw_lock)::')]:
+        mustpass.commit_group(ctx, *spec)
 
 
 RULES.append(("C14.k", "branch-commit: between the decision to perform an effect and the effect there is no way out", rule_commit))
